@@ -78,6 +78,7 @@ type Shared struct {
 	params    map[string]int
 	chooseMax map[string]int
 	unknownAt []string
+	forkSites map[string]int
 	deadline  time.Time
 	timedOut  bool
 
@@ -87,6 +88,9 @@ type Shared struct {
 	progress                    bool
 	lastProgress                time.Time
 }
+
+// brStats (GOSYM_BRSTATS=1): count, per branch site / choice tag, the decisions with more than one feasible side.
+var brStats = os.Getenv("GOSYM_BRSTATS") != ""
 
 func NewShared(nworkers int) *Shared {
 	s := &Shared{stats: map[string]int{}, reach: map[string]bool{}, findKeys: map[string]int{}, maxPaths: 1 << 40,
@@ -311,6 +315,12 @@ func (e *Explorer) take(kind string, n int, cons func(i int) *Term) int {
 	}
 	e.sh.mu.Lock()
 	e.sh.decisions++
+	if brStats && len(feas) > 1 {
+		if e.sh.forkSites == nil {
+			e.sh.forkSites = map[string]int{}
+		}
+		e.sh.forkSites[kind]++
+	}
 	e.sh.mu.Unlock()
 	// work sharing: hand the siblings to other workers while the queue is short
 	if len(feas) > 1 && len(e.vec) < 48 && e.sh.nworkers > 1 && e.sh.hungry() {
